@@ -83,7 +83,9 @@ def field_args(o, n):
     valid = make_array(dict(o["valid"], shape=list(n))) if o.get("valid") else np.ones(n, dtype=bool)
     vdims = o.get("vdims")
     mapping = o.get("mapping")
-    kw = dict(nvdim=nvdim, value=arr.copy(), valid=valid.copy())
+    kw = dict(nvdim=nvdim, value=arr.copy())
+    if o.get("valid"):
+        kw["valid"] = valid.copy()  # otherwise the constructor's own default (True) is exercised
     if vdims is not None:
         kw["vdims"] = list(vdims)
     if mapping is not None:
